@@ -336,6 +336,18 @@ class ObjectWriter:
                 if obj.dm is self._jar:
                     return ['w', (oid, )]
                 else:
+                    # As for an ordinary reference: the name must stand
+                    # for the target's database here, too.
+                    try:
+                        otherdb = obj.dm.db()
+                    except AttributeError:
+                        otherdb = None
+                    if self._jar.db().databases.get(
+                            obj.database_name) is not otherdb:
+                        raise InvalidObjectReference(
+                            "Attempt to store a weak reference to an "
+                            "object from a foreign database connection",
+                            self._jar, obj)
                     return ['w', (oid, obj.database_name)]
 
         # Since we have an oid, we have either a persistent instance
